@@ -171,6 +171,7 @@ Plan gen_C19(sim::Rng &r, Plan p, bool thorough)
     cfg["tty1"] = (int)r.below(2);
     cfg["tty2"] = (int)r.below(2);
     cfg["preexisting"] = (has_path && r.chance(1, 3)) ? (int)r.range(1, 300) : 0;
+    cfg["pre_age_days"] = r.chance(1, 2) ? 0 : (int)r.range(1, 4); // the old content is from an earlier day
     cfg["logger"] = r.chance(1, 2) ? "singleton" : "heap";
     p.app = async ? r.chance(5, 6) : r.chance(1, 2);
     std::string stop = "none";
@@ -215,6 +216,8 @@ Plan gen_C19(sim::Rng &r, Plan p, bool thorough)
     static const int ta[] = { 0, 10, 20, 40 };
     p.time_adv_pct = ta[r.below(4)];
     p.spurious_pm = 0;
+    static const int cy[] = { 0, 0, 10, 30, 100 };
+    p.clock_yield_pct = cy[r.below(5)];
     return p;
 }
 
@@ -350,7 +353,8 @@ void run_child_c19(const Plan &P, const std::string &rundir)
             f.write(data);
             f.close();
             // written an hour before the run began, by the virtual clock
-            sim::fs_stamp(logPath.toLocal8Bit().constData(), sim::wall_now() - 3600 * sim::SEC);
+            sim::fs_stamp(logPath.toLocal8Bit().constData(),
+                          sim::wall_now() - 3600 * sim::SEC - (int64_t)P.cfg["pre_age_days"].toInt() * sim::DAY);
         }
     }
 
@@ -1179,7 +1183,10 @@ Verdict judge_c19(const Plan &plan, const sim::Shm *shm, const ChildExit &, cons
             for (auto &l : lines)
                 if (l.cid >= 0)
                     wrote = true;
-            if (cfg.rotating && cfg.startup && cfg.N != 1 && have > 0 && wrote) {
+            bool old_day = plan.cfg["pre_age_days"].toInt() > 0;
+            bool must_rotate_start = cfg.rotating && cfg.startup;
+            bool must_rotate_day = cfg.rotating && cfg.daily && old_day; // records of different days never share a file
+            if ((must_rotate_start || must_rotate_day) && cfg.N != 1 && have > 0 && wrote) {
                 bool mixed = false;
                 for (auto &s : segs) {
                     bool has_pre = s.content.find("pre-existing line\n") != std::string::npos;
@@ -1191,8 +1198,10 @@ Verdict judge_c19(const Plan &plan, const sim::Shm *shm, const ChildExit &, cons
                         mixed = true;
                 }
                 if (mixed)
-                    fail19(v, "no-startup-rotation",
-                           "rotation on start-up is configured but the content that existed before the run was not rotated away");
+                    fail19(v, must_rotate_start ? "no-startup-rotation" : "no-daily-rotation",
+                           must_rotate_start
+                                   ? "rotation on start-up is configured but the content that existed before the run was not rotated away"
+                                   : "daily rotation is configured but the content written on an earlier day shares a file with today's messages");
             }
         }
         if (!(cfg.rotating) && rotated > 0)
